@@ -33,6 +33,12 @@ def spec_raw_ready(h, d, L):
             z3.Exists([r], z3.And(rng(r, 0, h.len(L)), h.at(L, r) == D.it.op(j, D.kj(j)))))))]
 
 
+def us_index(D, o):
+    """where operation o = (j, p), p >= k_j, sits in unscheduled_operations()"""
+    j = D.it.jid(o)
+    return D.it.cumL(j) - D.cumK(j) + D.it.pos(o) - D.kj(j)
+
+
 def spec_unscheduled(h, d, U):
     """every operation with position >= its job's next index, job by job, in job order:
     operation (j, p) sits at index  sum_{j'<j} (L_j' - k_j') + (p - k_j)"""
@@ -43,6 +49,8 @@ def spec_unscheduled(h, d, U):
             ("elements-are-unscheduled-operations", forall([r], imp(rng(r, 0, h.len(U)), z3.And(
                 D.it.is_op(h.at(U, r)), D.it.pos(h.at(U, r)) >= D.kj(D.it.jid(h.at(U, r))))), patterns=[h.at(U, r)])),
             ("as-many-as-not-scheduled", h.len(U) == D.it.N - D.n),
+            ("each-element-sits-at-its-place", forall([r], imp(rng(r, 0, h.len(U)), r == us_index(D, h.at(U, r))),
+                                                      patterns=[h.at(U, r)])),
             ("each-unscheduled-operation-at-its-place", forall([j, p], imp(
                 z3.And(rng(j, 0, D.it.J), rng(p, D.kj(j), D.it.L(j))),
                 h.at(U, D.it.cumL(j) - D.cumK(j) + p - D.kj(j)) == D.it.op(j, p)), patterns=[D.it.op(j, p)]))]
@@ -163,7 +171,8 @@ _Q_CLAUSES = ["result-are-operations", "result-are-ready", "result-in-job-order"
               "result-list", "as-many-as-not-scheduled", "each-unscheduled-operation-at-its-place",
               "as-many-as-scheduled", "each-scheduled-operation-at-its-place",
               "non-empty-while-some-job-is-unfinished", "all-ready-operations-without-filter",
-              "unfiltered-current-time", "placed-so-far", "elements-so-far", "elements-are-unscheduled-operations"]
+              "unfiltered-current-time", "placed-so-far", "elements-so-far", "elements-are-unscheduled-operations",
+              "each-element-sits-at-its-place"]
 _Q_REL = {n: SHAPE + ["R9-count-per-machine", "R9-count-per-job", "R9-count-per-job-monotone", "R9-counts-agree",
                       "R9-deficit-monotone", "inst-cum",
                       "inst-cum-monotone", "inst-machines"] for n in _Q_CLAUSES}
@@ -272,7 +281,8 @@ def _slice_loop(list_name, scheduled):
         r = bv("ru")
         elems = forall([r], imp(rng(r, 0, h.len(U)), z3.And(
             D.it.is_op(h.at(U, r)), (D.it.pos(h.at(U, r)) < D.kj(D.it.jid(h.at(U, r)))) if scheduled
-            else (D.it.pos(h.at(U, r)) >= D.kj(D.it.jid(h.at(U, r)))))), patterns=[h.at(U, r)])
+            else z3.And(D.it.pos(h.at(U, r)) >= D.kj(D.it.jid(h.at(U, r))), r == us_index(D, h.at(U, r))))),
+            patterns=[h.at(U, r)])
         return [("result-list", z3.And(U >= h0.alloc, U < h.alloc, h.len(U) == size)),
                 ("elements-so-far", elems),
                 ("placed-so-far", placed)] + reach(h, d)
